@@ -45,6 +45,16 @@ Proof.
     by apply (run_aop_reorder_notape w order a r a' HA (Ht eq_refl)).
 Qed.
 
+Theorem run_aop'_AInv2 w m o a r a' :
+  a_allowed2 o = true → is_anew o = false → AInv a → a_caller_ok a o →
+  (is_areorder o = true → tape (mgr a) = []) →
+  run_aop' w m o a = (r, a') → AInv a' ∧ AKeep o a a'.
+Proof.
+  intros Ha Hn HA Hc Ht H. destruct (run_aop'_cases w m o) as [E|(hu&->&E)]; rewrite E in H.
+  - by apply (run_aop_AInv2 w o a r a').
+  - apply AStep_AKeep; [done|]. by apply (asafe_a_copy_same hu a r a').
+Qed.
+
 (** ** One step of the driver *)
 Theorem astep_AInv2 w m o :
   a_allowed2 o = true → a_tape_ok o = true →
@@ -60,7 +70,7 @@ Proof.
       rewrite orb_false_r in Ha. apply bool_decide_eq_true in Ha as [Hn1 Hn2].
       by destruct (new_spec w levels a r a' Hn1 Hn2 E) as (?&_).
     - destruct (Hpre eq_refl) as [[HA Ht] Hc].
-      destruct (run_aop_AInv2 w o a r a' Ha Hn HA Hc (fun _ => Ht) E) as [? ?]. done. }
+      destruct (run_aop'_AInv2 w m o a r a' Ha Hn HA Hc (fun _ => Ht) E) as [? ?]. done. }
   destruct H as [HA' Hk].
   assert (H2 : AInvT (a' <| mgr := (mgr a') <| tape := [] |> |>) ∧
                (is_anew o = false → AKeep o a (a' <| mgr := (mgr a') <| tape := [] |> |>))).
@@ -68,7 +78,7 @@ Proof.
   destruct o; try exact H2.
   (* [ATape []] *)
   cbn [a_tape_ok] in Htp. apply bool_decide_eq_true in Htp as ->.
-  split; [|done]. split; [done|]. revert E. cbn [run_aop]. unfold bind, lift. cbn [modify].
+  split; [|done]. split; [done|]. revert E. cbn [run_aop' run_aop]. unfold bind, lift. cbn [modify].
   intros [= _ <-]. done.
 Qed.
 
@@ -820,6 +830,7 @@ Theorem astep_AInvD w m o :
 Proof.
   intros Ha HA. destruct (astep_spec w m o) as (r&a'&E&->&->).
   set (a := aworld_get w m) in *.
+  rewrite run_aop'_not_copy in E by (intros src hu ->; discriminate Ha).
   destruct (run_aop_AInvD w o a r a' Ha HA E) as ((HA'&Ht')&Hk&?&?).
   assert (H2 : AInvDT (a' <| mgr := (mgr a') <| tape := [] |> |>) ∧
                AKeep o a (a' <| mgr := (mgr a') <| tape := [] |> |>)).
